@@ -37,7 +37,8 @@ def floors(m, tier):
             "get_new judged": (c.get("get_new", 0), u * k // 3),
             "beyond last representable version": (c.get("overflow_cases", 0), u // 8),
             "publish steps": (c.get("publish_steps", 0), u * 2),
-            "sparse version sets": (c.get("sparse_sets", 0), u // 4)}
+            "sparse version sets": (c.get("sparse_sets", 0), u // 4),
+            "get_next of a concrete version with a symbol in another field": (c.get("get_next_with_symbol_elsewhere", 0), u // 4)}
 
 
 def run(snap, tier, seed, t0, replay):
@@ -154,8 +155,13 @@ def judge_calls(rec, lab, vf, e, case):
     cur = fields.get("version")
     others = lambda y: {k: v for k, v in y.fields.items() if k != "version"}   # noqa
     base_others = {k: v for k, v in fields.items() if k != "version"}
+    # a search symbol in ANOTHER field: get_last / get_new answer with an existing (concrete) sibling, so "every other field
+    # unchanged" cannot apply - only get_next of a concrete version ("the same Sid, version + 1") is stated
+    symbol_elsewhere = any(model.is_search_string(str(v)) for k, v in fields.items() if k != "version")
+    if symbol_elsewhere:
+        rec.unspec("get_last_get_new_with_symbol_in_another_field")
     # ---- get_last
-    last = exp_last(lab, vf, x.type, fields)
+    last = exp_last(lab, vf, x.type, fields) if not symbol_elsewhere else None
     if last is not None:
         rec.count("get_last")
         try:
@@ -184,16 +190,18 @@ def judge_calls(rec, lab, vf, e, case):
             if not v:
                 rec.count("overflow_cases")
     elif cur in ("*", ">"):
-        if last is not None:
+        if last is not None and not symbol_elsewhere:
             n = (vf.num(last.split("/")[model.by_name[x.type].keys.index("version")]) if last else 0) + 1
             v = vf.fmt(n)
             exp = with_version(lab, x.type, fields, v) if v else ""
             if not v:
                 rec.count("overflow_cases")
-    else:
+    elif not symbol_elsewhere:
         exp = with_version(lab, x.type, fields, vf.fmt(1))
     if exp is not None:
         rec.count("get_next")
+        if symbol_elsewhere:
+            rec.count("get_next_with_symbol_elsewhere")
         try:
             got = x.get_next("version")
             if str(got) != exp:
@@ -205,7 +213,9 @@ def judge_calls(rec, lab, vf, e, case):
         except Exception as ex:
             rec.violation("get_next_raised", c, repr(ex))
     # ---- get_new
-    if last == "" and cur and cur not in ("*", ">"):
+    if symbol_elsewhere:
+        pass
+    elif last == "" and cur and cur not in ("*", ">"):
         # no version exists at all and the Sid carries one: the statement does not say what 'successor of the last' is
         rec.unspec("get_new_without_any_existing_version")
     elif last is not None and cur not in ("*", ">"):
@@ -305,7 +315,8 @@ def worker(args):
         lab.trees.reset()
         return rec.result()
     for u in range(args["universes"]):
-        lab.names = rng.sample(["a", "b", "oph", "a-b"], 2)
+        # (an open-level name may look exactly like a version value)
+        lab.names = rng.sample(["a", "b", "oph", "a-b", vf.fmt(1), vf.fmt(2), vf.fmt(1), vf.fmt(3)], 2)
         ents, tasks, sparse = build_universe(lab, rng, vf)
         lab.new_universe(ents=ents, names=lab.names)
         if sparse:
@@ -330,6 +341,15 @@ def worker(args):
                     s2 = "/".join(segs[:vi] + [v] + segs[vi + 1:])
                     if lab.model.natural(s2) is not None:
                         extra.append(s2)
+                # a concrete version, a search symbol in ANOTHER field: get_next is still "the same Sid, version + 1"
+                others_i = [i for i in range(2, len(segs)) if i != vi]
+                if others_i:
+                    s3 = segs[:]
+                    s3[rng.choice(others_i)] = "*"
+                    s3 = "/".join(s3)
+                    if lab.model.natural(s3) is lab.model.natural(e):
+                        extra.append(s3)
+                        rec.count("concrete_version_with_symbol_elsewhere")
         pool = cands + extra
         for e in rng.sample(pool, min(len(pool), args["sids"])):
             rec.ev()
